@@ -250,3 +250,78 @@ PROPS["C19"] = dict(
     trusted=TYPES_TRUSTED + ["ECDSA (libsecp256k1) is a parameter of the model: E.Correct is a hypothesis of sign_recover, not an axiom"],
     assumptions=["binding relies on SHA-256 collision resistance and on ECDSA not recovering one key for two messages (stated, not proved)"],
 )
+
+from . import gen_check, gen_lock
+
+
+def total_project(out):
+    """C06's observable: a result or typed error vs a panic / abort"""
+    t = out.split(" ")[0]
+    return t if t in ("panic", "abort", "missing", "bad-line", "timeout") else "total"
+
+
+CHECK_TRUSTED = [KERNEL, TIE, "gen/spec_from_yaml.py, gen/consts_from_rust.py",
+                 "modelled, not verified: rayon's indexed collect / partition (index order), HashMap / HashSet / BTreeMap semantics, Arc::try_unwrap succeeding after the parallel section"]
+
+PROPS["C06"] = dict(
+    modules=["Essential.Props.C06"],
+    gen=gen_check.c06_cases,
+    project=total_project, abort_is_violation=True,
+    nontrivial=lambda body, out: out.startswith("ok") or out.startswith("err") or out.startswith("some") or out.startswith("none"),
+    exhaustive="data-output memories: all word strings of length <= 3 (quick: 35% sample; thorough: <= 4, all) over 7 boundary words; all 125 edge_start patterns x 12 edge lists for 3-node graphs (quick: 25% sample)",
+    rule="cases: data-output programs producing arbitrary memories (invalid mutation encodings, huge counts, negative lengths), "
+         "pre/post-state reads with counts up to i64::MAX on wrapping keys, cyclic / dangling / malformed graphs, invalid bytecode "
+         "as a node program, parent stack/memory concatenation overflow, random bytes through the predicate / bytecode decoders; "
+         "every case runs the real entry point under catch_unwind (a panic or abort is a violation with the input as replay); "
+         "non-trivial = distinct case returning a value or typed error",
+    trusted=CHECK_TRUSTED,
+    assumptions=["K3 (observation): read_or_fallback iterates `count` times before the VM can reject the size; huge counts are only issued with keys that wrap at once",
+                 "the documented contract of check_set_predicates (set accepted by check_set, predicates by predicate::check) is assumed for the entry points"],
+)
+
+PROPS["C03"] = dict(
+    modules=["Essential.Props.C03"],
+    gen=gen_check.c03_cases,
+    model_is_spec=True, abort_is_violation=True,
+    nontrivial=lambda body, out: out.startswith("ok") or out.startswith("err"),
+    exhaustive=None,
+    rule="cases: graphs (chain, diamond, fan, reader-at-root / middle / leaf, reader behind a compute-only parent) whose reader node "
+         "issues PostKeyRange / PostKeyRangeExtern (and PreKeyRange controls) for ranges that straddle mutated and unmutated keys and "
+         "carry over i64::MAX words; mutations declared in the solution and / or computed by a data-output node of the first pass, "
+         "deletions (empty values), several contracts, keys of different lengths; each case runs "
+         "check_and_compute_solution_set_two_pass on the real code and the model, and a Python reference (pre-state overlaid with all "
+         "mutations of the set) states the expected values via o_expect; non-trivial = distinct case returning a value or typed error",
+    trusted=CHECK_TRUSTED,
+    assumptions=["accepted sets only for the `proposed value` reading (at most one mutation per slot: C04); with duplicates the model and the code agree that the last one wins (post_state_spec)",
+                 "K3 (observation): read_or_fallback iterates `count` times before the VM can reject the size"],
+)
+
+PROPS["C20"] = dict(
+    modules=["Essential.Props.C20"],
+    gen=gen_lock.c20_cases,
+    py_oracle=gen_lock.c20_loom_oracle,
+    model_is_spec=True,
+    nontrivial=lambda body, out: (body.startswith("lockcheck ") and out == "ok") or
+        (body.startswith(("lockserial", "lockcheckx")) and out not in ("missing", "bad-line", "bad-family")),
+    classify=lambda body, out: out if out in ("ok", "no-serial-order", "search-limit", "bad-history", "incomplete",
+        "missing", "bad-line", "bad-family", "abort", "timeout") else ("FAIL" if out.startswith("FAIL") else "outcome"),
+    exhaustive="loom: all interleavings (at the synchronisation points of the real source rewritten std::sync -> loom::sync) "
+               "of 9 systems: 2 and 3 threads x 1-2 read-yield-write closures on one lock, 2-3 threads on two locks taken in "
+               "opposite orders (about 20 000 executions)",
+    rule="phase 1: systems of 2..16 OS threads x 1..6 read-pause-write closures (increments, v+b, a*v+b) on 1..3 real "
+         "essential_lock::StdLock<i64>, pauses none/yield/spin/sleep up to 300us inside and between calls; phase 2: every observed "
+         "history (returned values per thread, final values) is sent as `lockcheck` to harness and Lean driver: both must agree and "
+         "answer ok (= outcome of a serial execution, what the proved model allows; the driver re-validates its witness order with the "
+         "model's serialOutcome); `lockserial` random orders and `lockcheckx` corrupted control histories (lost update, swapped / "
+         "duplicated returns) must agree; oracles: o_lockrun fresh runs checked in-process, o_lockhammer 3000 (thorough 20000) "
+         "contended increments per thread for 2..16 threads with a deadlock timeout, loom on the rewritten real source; "
+         "non-trivial = distinct observed history accepted, or distinct control/serial case answered",
+    trusted=[KERNEL, TIE,
+             "gen/lock_from_rust.py (shape of StdLock::apply -> Gen/Lock.lean; std->loom rewrite for harness-loom)",
+             "std::sync::Mutex (acquire blocks unless free, release frees; poisoning not modelled) and Rust's rule that a guard "
+             "temporary in a call argument lives until the call has returned",
+             "loom 0.7.2 as interleaving explorer (its Condvar::notify_one wakes FIFO)"],
+    assumptions=["closures do not call apply (non-re-entrant, non-nested use): the case no_deadlock is stated for",
+                 "closures do not panic (a panic inside apply poisons the mutex; every later apply panics by design)",
+                 "real OS interleavings are sampled, not enumerated; loom enumerates only the small configurations listed"],
+)
